@@ -86,7 +86,7 @@ func c01Canon(op string, line string, isOS bool) string {
 	case strings.HasPrefix(f[0], "h=") && len(f) > 1:
 		return f[0] + " " + f[1]
 	}
-	if op == "h.write" || op == "h.writestring" || op == "h.writeat" || op == "h.trunc" {
+	if op == "h.write" || op == "h.writestring" || op == "h.readfrom" || op == "h.writeat" || op == "h.trunc" {
 		// refused for want of write access: EBADF / EINVAL from the OS, "file handle is read only" from afero
 		for _, e := range []string{"rohandle", "badf", "inval"} {
 			line = strings.Replace(line, "err:"+e, "err:denied", 1)
@@ -609,6 +609,9 @@ func (s *wf) apply1(t []string, lastChmod string) bool {
 		case "h.read", "h.readat":
 			// zero-length reads are left to C02: the OS answers them without looking at the position
 			return !h.dir && atoi(t[2]) > 0 && (h.closed || h.readable) && (t[0] == "h.read" || atoi64(t[3]) >= 0)
+		case "h.readfrom":
+			// io.Copy into the handle; an empty copy makes no call at all, so it is left out
+			return !h.dir && t[2] != "-"
 		case "h.write", "h.writestring", "h.writeat", "h.trunc":
 			if t[0] == "h.writeat" && atoi64(t[3]) < 0 || t[0] == "h.trunc" && atoi64(t[2]) < 0 {
 				return false
@@ -774,7 +777,7 @@ func genC01(r *corr.Rand, steps int) corr.Case {
 			}
 			switch q := r.Intn(100); {
 			case q < 25:
-				try(fmt.Sprintf("%s %d %s", corr.Pick(r, []string{"h.write", "h.write", "h.writestring"}), hi, corr.Hex(payload(r, r.Intn(6)))))
+				try(fmt.Sprintf("%s %d %s", corr.Pick(r, []string{"h.write", "h.write", "h.writestring", "h.readfrom"}), hi, corr.Hex(payload(r, r.Intn(6)))))
 			case q < 40:
 				try(fmt.Sprintf("h.writeat %d %s %d", hi, corr.Hex(payload(r, r.Intn(6))), r.Intn(12)))
 			case q < 58:
